@@ -201,7 +201,9 @@ def function_maps(loader):
     return out
 
 
-TASKS.append(StructTask("PRE/POST_PROCESS_FUNCTION_MAP", function_maps))
+# (an expectation about how the table entries are *spelled*: a mismatch means "the source no longer has the shape this argument was made for" - undecided, the native
+# evaluation decides - not a violation: a respelling of np.log is harmless)
+TASKS.append(StructTask("PRE/POST_PROCESS_FUNCTION_MAP", function_maps, textual=True))
 
 # the peak-range update decides which windows and which peaks are "accepted" (its contract is proved with the C08 contracts: both masks = "has a
 # peak in the range", all windows kept when none has one); the statistics are over those sets, so it is an obligation of this property too
